@@ -347,6 +347,8 @@ def roundtrip(text, flags, indent, st=None, collect=None):
         return out + [("print-raises-on-reparsed:%s" % type(e).__name__, "%r; %s" % (e, what))]
     if p2 != p1:
         out.append(("not-fixpoint", "%r then %r; %s" % (p1, p2, what)))
+    if st is not None and not out:
+        st.n("round_trips_ok")
     return out
 
 
@@ -439,6 +441,7 @@ def check_case(case, st):
             cnt += 1
             for ind in range(len(INDENTS)):
                 for cls, detail in roundtrip(text, flags, INDENTS[ind], st):
+                    st.outcome((hid, cls))
                     emit(cls, {"k": "h", "host": hid, "block": block, "body": body, "indent": ind}, detail)
             if cnt % 256 == 0 and st.out_of_time():
                 break
